@@ -133,12 +133,14 @@ where
             PayStatus::FAILED => {
                 if let Some(warning) = resp.warning_partial_completion {
                     warn!("pay returned partial completion: {}", warning);
-                    return match self.wait_payment(req.payment_hash).await? {
-                        Some(preimage) => Ok(preimage),
-                        None => Err(anyhow!("payment failed")),
-                    };
                 };
-                return Err(anyhow!("payment failed"));
+                // Parts of the payment may still be pending or have
+                // completed, also without a partial completion warning. Only
+                // report failure once nothing is outgoing anymore.
+                return match self.wait_payment(req.payment_hash).await? {
+                    Some(preimage) => Ok(preimage),
+                    None => Err(anyhow!("payment failed")),
+                };
             }
         }
     }
